@@ -252,7 +252,7 @@ class ContentElement:
     if child.get_doc() != self.get_doc():
       raise RuntimeError("Element belongs to a different document")
 
-    if child is self:
+    if child is self or child is self.root():
       raise RuntimeError("Cannot add a root element to its descendents")
 
     # pylint: disable=W0212
